@@ -64,6 +64,53 @@ def _valid_any(v):
     return _valid_tcp(v)
 
 
+def _enc_tcp(x, as_direct=False):
+    """J term: the dict encode_hint writes for the Direct/Tor hint object x (every sub-hint of a relay hint is written as
+    direct-tcp-v1, whatever its class)"""
+    if isinstance(x, VUnion):
+        alts = [(c, _enc_tcp(v, as_direct)) for c, v in x.alts if v is not NONE]
+        out = alts[-1][1]
+        for c, t in reversed(alts[:-1]):
+            out = z3.If(c, t, out)
+        return out
+    want = "direct-tcp-v1" if as_direct or x.ntname == "DirectTCPV1Hint" else "tor-tcp-v1"
+    host, port, prio = [to_json(y) for y in x.items]
+    a = z3.K(StringS, OJ.absent)
+    for k, val in (("type", J.jstr(z3.StringVal(want))), ("priority", prio), ("hostname", host), ("port", port)):
+        a = z3.Store(a, z3.StringVal(k), OJ.present(val))
+    return J.jdict(a)
+
+
+def _encodes(rz, h):
+    """z3 Bool: the JSON value rz is exactly what encode_hint writes for the hint object h (a relation that determines rz:
+    exact key set, every value taken unchanged from the object, one entry per sub-hint in order)"""
+    ground, elems = _encodes_parts(rz, h, z3.Int("i!enc"))
+    # the per-element part is one universally quantified conjunct at the top (skolemised as a goal, instantiated as a hypothesis)
+    return z3.And(ground, z3.ForAll([z3.Int("i!enc")], elems)) if elems is not None else ground
+
+
+def _encodes_parts(rz, h, i):
+    if isinstance(h, VUnion):
+        parts = [(c, _encodes_parts(rz, x, i)) for c, x in h.alts]
+        qs = [z3.Implies(c, q) for c, (g, q) in parts if q is not None]
+        return z3.And([z3.Implies(c, g) for c, (g, q) in parts]), (z3.And(qs) if qs else None)
+    if h is NONE or not isinstance(h, VTuple):
+        return z3.BoolVal(False), None
+    if h.ntname in ("DirectTCPV1Hint", "TorTCPV1Hint"):
+        return rz == _enc_tcp(h), None
+    subs = h.items[0]
+    L = J.l(OJ.v(z3.Select(J.d(rz), z3.StringVal("hints"))))
+    a = z3.K(StringS, OJ.absent)
+    a = z3.Store(a, z3.StringVal("type"), OJ.present(J.jstr(z3.StringVal("relay-v1"))))
+    a = z3.Store(a, z3.StringVal("hints"), OJ.present(J.jlist(L)))
+    if isinstance(subs, (VList, VTuple)):
+        units = [z3.Unit(_enc_tcp(x, True)) for x in subs.items]
+        want = z3.Empty(z3.SeqSort(J)) if not units else units[0] if len(units) == 1 else z3.Concat(*units)
+        return z3.And(rz == J.jdict(a), L == want), None
+    return (z3.And(rz == J.jdict(a), z3.Length(L) == z3.Length(subs.z)),
+            z3.Implies(z3.And(0 <= i, i < z3.Length(subs.z)), L[i] == _enc_tcp(from_z3(subs.z[i], subs.elem), True)))
+
+
 def regf():
     reg = make_registry()
     install_trace_funcs(reg)
@@ -73,6 +120,20 @@ def regf():
     install_hint_support(reg)
     reg.func_models["wormhole/util.py:HKDF"] = lambda it, args, kw, fr: it.fresh("bytes", "hkdf")
     reg.input_as_boundary = True
+
+    def send_hints(it, recv, meth, args, kwargs, fr):
+        """Manager.send_hints as seen from the Connector: recorded with its receiver (its body: contract Manager.send_hints)"""
+        it.ctx.event("bcall", "ManagerB", meth, list(args), dict(kwargs), recv=recv)
+        return NONE
+
+    reg.boundary["ManagerB.send_hints"] = send_hints
+
+    def bcall_recv(it, name, k):
+        name, k = it.concrete(name), it.concrete(k)
+        evs = [e for e in it.ctx.trace if e[0] == "bcall" and e[1][1] == name]
+        return evs[k][2]["recv"] if k < len(evs) and "recv" in evs[k][2] else VObj("<missing>")
+
+    reg.spec_funcs["bcall_recv"] = bcall_recv
     return reg
 
 
@@ -152,6 +213,7 @@ def install_hint_support(reg):
                             z3.Or(z3.Not(has("priority")), J.is_jint(fld("priority")), J.is_jreal(fld("priority")))))
 
     sf["wellformed_tcp"] = wellformed_tcp
+    sf["encodes"] = lambda it, r, h: VBool(_encodes(to_json(r), h))
     sf["n_calls"] = lambda it, suffix: VInt(sum(1 for e in it.ctx.trace if e[0] == "call" and e[1][0].endswith(it.concrete(suffix))))
     def new_deferred(it):
         evs = [e for e in it.ctx.trace if e[0] == "new-deferred"]
@@ -430,6 +492,10 @@ CONTRACTS = [
              note="the Automat input through the real transition table: in 'connecting' exactly _use_hints(hint_objs) (by contract) "
                   "runs, in 'connected' nothing; a stopped Connector has no row (NoTransition, Automat's own behaviour: that the "
                   "Manager never feeds a stopped Connector is C11's business)"),
+    Contract("wormhole/_hints.py:encode_hint", props=[PROP], params={"h": SOMEHINT}, returns="json",
+             ensures=[("result-is-exactly-the-encoding", "encodes(result, h)")],
+             note="never raises for a hint object; the dict carries exactly type/priority/hostname/port taken unchanged from the "
+                  "object (relay-v1: one direct-tcp-v1 entry per sub-hint, in order)"),
     Contract("lemma:roundtrip_tcp", props=[PROP], params={"h": HINT}, source_module="wormhole/_hints.py",
              source_text="""
              def roundtrip_tcp(h):
@@ -459,6 +525,117 @@ CONTRACTS.append(
                   "relay branch (inlined, real loop) followed by parse_hint (parse_tcp_v1_hint by contract) gives it back"))
 
 
+PUBLISHED = ("bcalls('send_hints') == 1 and len(bcall_names()) == 1 and bcall_recv('send_hints', 0) is self._manager and "
+             "len(bcall_arg('send_hints', 0, 0)) == len({hs}) and "
+             "forall(lambda i: implies(0 <= i and i < len({hs}), encodes(bcall_arg('send_hints', 0, 0)[i], {hs}[i])), 'int')")
+PUB_FIELDS = {"_manager": "obj[ManagerB]"}
+LISTEN_FIELDS = {"__state": "state", **CONNECTOR_FIELDS, "_listeners": "set[opaque[port]]", "_transit_relays": "seq[nt[RelayV1Hint]]"}
+
+CONTRACTS += [
+    Contract(CON + "_publish_hints", props=[PROP], params={"hint_objs": f"seq[{SOMEHINT}]"}, self_fields=PUB_FIELDS,
+             internal_ensures=[("one-message-with-exactly-the-encoding-of-every-hint-object-once-in-order",
+                                PUBLISHED.format(hs="hint_objs"))],
+             note="the list handed to Manager.send_hints has one entry per hint object, entry i being exactly what encode_hint "
+                  "(by contract: the relation `encodes`, which fixes the whole dict) writes for hint_objs[i]: nothing is published "
+                  "that is not the encoding of an object this side built, and no object is published twice by one call"),
+    Contract(CON + "listener_ready", props=[PROP], params={"hint_objs": f"seq[{SOMEHINT}]"}, self_fields=LISTEN_FIELDS,
+             modifies=[], raises_exactly={"NoTransition": "in_state(self, 'stopped')"},
+             ensures=[("state-kept", "state_of(self) == old(state_of(self))")],
+             internal_ensures=[("published-once-while-connecting-with-exactly-these-hints",
+                                "n_calls('_publish_hints') == ite(in_state(self, 'connecting'), 1, 0) and "
+                                "implies(n_calls('_publish_hints') == 1, call_arg('_publish_hints', 0, 1) == hint_objs)"),
+                               ("once-connected-nothing-is-published", "implies(in_state(self, 'connected'), len(bcall_names()) == 0)")],
+             note="the Automat input through the real transition table: in 'connecting' exactly _publish_hints(hint_objs) (by "
+                  "contract), in 'connected' nothing; no row in 'stopped' (NoTransition: see ASSUMPTIONS)"),
+    Contract("lemma:listener_hints", props=[PROP], source_module="wormhole/_dilation/connector.py",
+             params={"c": "obj[Connector]", "addresses": "seq[str]", "lp": "opaque[port]"},
+             source_text="""
+             def listener_hints(c, addresses, lp):
+                 c._start_listener(addresses)
+                 listening = bcall_arg("addCallback", 0, 0)   # what _start_listener attached to ep.listen(factory)
+                 listening(lp)                                 # the port is open
+                 return input_arg("listener_ready", 0, 0)
+             """,
+             requires=["not in_state(c, 'stopped')"],
+             returns="seq[nt[DirectTCPV1Hint]]",
+             ensures=[("listener-ready-fed-once", "input_calls('listener_ready') == 1"),
+                      ("published-through-_publish_hints-iff-still-connecting",
+                       "n_calls('_publish_hints') == ite(old(in_state(c, 'connecting')), 1, 0) and "
+                       "implies(n_calls('_publish_hints') == 1, call_arg('_publish_hints', 0, 1) == result)"),
+                      ("one-direct-hint-per-address-in-order-on-the-listening-port",
+                       "len(result) == len(addresses) and forall(lambda i: implies(0 <= i and i < len(addresses), "
+                       "isinstance(result[i], DirectTCPV1Hint) and result[i].hostname == addresses[i] and "
+                       "result[i].port == listening_port(lp) and result[i].priority == 0.0), 'int')"),
+                      ("every-hint-built-is-one-the-peer's-parser-accepts", "all_valid_any(result)")],
+             note="Connector._start_listener (real body) and its callback _listening: the hints handed to listener_ready are "
+                  "DirectTCPV1Hint(str address, int port of the IListeningPort, 0.0), one per address; listener_ready runs through the "
+                  "real transition table (publish_hints -> _publish_hints by contract). "
+                  "requires: the Deferred of ep.listen() fires before the Connector is stopped (c17 has the same premise)"),
+    Contract(CON + "start", props=[PROP], params={}, self_fields=LISTEN_FIELDS,
+             requires=["all_valid_any(self._transit_relays)"], modifies=["_pending_connectors"],
+             internal_ensures=[("relay-hints-published-once-exactly-the-configured-ones",
+                                "n_calls('_publish_hints') == ite(len(self._transit_relays) > 0, 1, 0) and "
+                                "implies(n_calls('_publish_hints') == 1, call_arg('_publish_hints', 0, 1) == self._transit_relays)"),
+                               ("and-dialled", "n_calls('_use_hints') == n_calls('_publish_hints') and "
+                                               "implies(n_calls('_use_hints') == 1, call_arg('_use_hints', 0, 1) == self._transit_relays)"),
+                               ("listens-unless-told-not-to", "bcalls('listen') == ite(not self._no_listen and self._tor is None, 1, 0)")],
+             note="the relay hints this side publishes are exactly self._transit_relays, once, through _publish_hints (by contract); "
+                  "_start_listener inlined up to ep.listen() (its callback: lemma listener_hints)"),
+    Contract("wormhole/_dilation/manager.py:Manager.send_hints", props=[PROP], params={"hints": "seq[json]"},
+             self_fields={"_next_dilation_generation": "int", "_S": "obj[SendB]"}, modifies=["_next_dilation_generation"],
+             internal_ensures=[("one-connection-hints-message-carrying-exactly-these-dicts",
+                                "bcalls('send') == 1 and len(bcall_names()) == 1 and n_events('msg') == 1 and "
+                                "sent_field(0, 'type') == 'connection-hints' and sent_field(0, 'hints') == hints and sent_keys(0) == 2"),
+                               ("generation-counts-messages", "self._next_dilation_generation == old(self._next_dilation_generation) + 1"),
+                               ("phase-names-the-generation", "bcall_arg('send', 0, 0) == 'dilate-' + str(old(self._next_dilation_generation))")],
+             note="send_dilation_generation inlined: the dict given to dict_to_bytes (recorded; JSON encoding itself is trusted) is "
+                  "{type: connection-hints, hints: <the list unchanged>}"),
+]
+
+
+def clause_of(target, name):
+    """the text of clause `name` of the contract on `target` in this module (lemma hypotheses are taken from the contracts
+    they rest on BY NAME: weakening the clause there weakens the hypothesis here, and the lemma fails)"""
+    c = [c for c in CONTRACTS if c.target == target][0]
+    return [e for n, e in c.ensures if n == name][0]
+
+
+def _about(expr, var):
+    import re
+    return "(" + re.sub(r"\bresult\b", var, expr) + ")"
+
+
+# what parse_hint / parse_tcp_v1_hint establish about the hint objects they return (their clauses `only-valid-hints`)
+WF_PARSED = _about(clause_of("wormhole/_hints.py:parse_hint", "only-valid-hints"), "h")
+WF_PARSED_TCP = _about(clause_of("wormhole/_hints.py:parse_tcp_v1_hint", "only-valid-hints"), "h")
+for _c in CONTRACTS:
+    if _c.target == "lemma:roundtrip_tcp":
+        _c.requires = [WF_PARSED_TCP]       # was the literal valid_hint(h): now parse_tcp_v1_hint's clause, by name
+CONTRACTS += [
+    Contract("lemma:dilation_hint_roundtrip", props=[PROP], params={"h": HINT}, source_module="wormhole/_hints.py",
+             source_text="""
+             def dilation_hint_roundtrip(h):
+                 return parse_hint(encode_hint(h))
+             """,
+             requires=[WF_PARSED],
+             ensures=[("tcp-hint-parses-back-to-itself", "result == h"),
+                      ("what-comes-back-is-again-well-formed", _about(clause_of("wormhole/_hints.py:parse_hint", "only-valid-hints"), "result"))],
+             note="encode_hint by contract (relation `encodes`, proved on its real body), parse_hint by contract. Hypothesis = "
+                  "parse_hint's own clause only-valid-hints, taken by name. No exception may escape (no raises clause). Relay "
+                  "hints: lemma roundtrip_relay_single (one Direct sub-hint, what this side builds); the arbitrary-length relay "
+                  "round trip is NOT claimed (see ASSUMPTIONS)"),
+    Contract("lemma:encoded_hint_never_raises_in_parse_hint", props=[PROP], params={"h": SOMEHINT}, source_module="wormhole/_hints.py",
+             source_text="""
+             def encoded_hint_never_raises_in_parse_hint(h):
+                 return parse_hint(encode_hint(h))
+             """,
+             ensures=[("parses-without-raising-to-nothing-or-a-valid-hint",
+                       _about(clause_of("wormhole/_hints.py:parse_hint", "only-valid-hints"), "result"))],
+             note="no hypothesis on h at all (any str/int/float/other field values): encode_hint and parse_hint by contract, "
+                  "neither has a raises clause"),
+]
+
+
 def regf_automat():
     """the Connector's machine is dispatched through its real transition table"""
     from pyvc.automat import AutomatSupport
@@ -474,15 +651,55 @@ def regf_automat():
     return reg
 
 
+def regf_listener():
+    """Connector.listener_ready / start / lemma listener_hints: the machine through its real table, Twisted's server endpoint
+    and listening port as boundary objects"""
+    reg = regf_automat()
+    em = reg.ext_models
+    em["twisted.internet.endpoints.serverFromString"] = lambda it, args, kwargs: VObj("ServerEndpointB")
+    reg.boundary_returns["ServerEndpointB.listen"] = "obj[DeferredB2]"
+    port_of = uf("listening_port", sort_of(parse_type("opaque[port]")), IntS)
+
+    def get_host(it, recv, meth, args, kwargs, fr):
+        """IListeningPort.getHost(): an address object whose .port is an int (a function of the port object)"""
+        it.ctx.event("bcall", "port", meth, list(args), dict(kwargs))
+        return VObj("HostB", {"port": VInt(port_of(recv.z))})
+
+    reg.boundary["port.getHost"] = get_host
+    reg.spec_funcs["listening_port"] = lambda it, lp: VInt(port_of(it.force(lp).z))
+    reg.class_fields["Connector"] = dict(LISTEN_FIELDS)
+    reg.func_models["wormhole/ipaddrs.py:find_addresses"] = lambda it, args, kwargs, fr: it.fresh("seq[str]", "addresses")
+    return reg
+
+
+def regf_send_hints():
+    """Manager.send_hints on its real body with C11's Manager registry (dict_to_bytes records the message dict)"""
+    from . import c11
+    reg = c11.regf_mgr()
+    sf = reg.spec_funcs
+    sf["n_events"] = lambda it, name: VInt(sum(1 for e in it.ctx.trace if e[0] == it.concrete(name)))
+
+    def sent_keys(it, k):
+        evs = [e for e in it.ctx.trace if e[0] == "msg"]
+        k = it.concrete(k)
+        return VInt(len(evs[k][1][0].d) if k < len(evs) and isinstance(evs[k][1][0], VDict) else -1)
+
+    sf["sent_keys"] = sent_keys
+    return reg
+
+
 def regf_inline_parse_hint():
     """the relay round trip runs the real parse_hint (its relay branch), with parse_tcp_v1_hint by contract"""
     reg = regf()
     del reg.contracts["wormhole/_hints.py:parse_hint"]
+    del reg.contracts["wormhole/_hints.py:encode_hint"]     # inlined as well: the real relay loop over the concrete 1-tuple
     return reg
 
 
 def tasks():
-    special = {CON + "got_hints": regf_automat, "lemma:roundtrip_relay_single": regf_inline_parse_hint}
+    special = {CON + "got_hints": regf_automat, "lemma:roundtrip_relay_single": regf_inline_parse_hint,
+               CON + "listener_ready": regf_listener, CON + "start": regf_listener, "lemma:listener_hints": regf_listener,
+               "wormhole/_dilation/manager.py:Manager.send_hints": regf_send_hints}
     out = [ContractTask(c, special.get(c.target, regf)) for c in CONTRACTS]
     # a connection-hints message must be acceptable in every state the Manager can be in when the peer's message arrives
     # (the table rows of rx_HINTS: contract in C11's module over the real transition table): a missing row would turn any
@@ -519,7 +736,18 @@ ASSUMPTIONS = ["JSON floats are reals; a priority 1 and a priority 1.0 are disti
                "AttributeError inside the reactor (replay/native/c20_connect_scheduled_without_endpoint.py); the obligations "
                "one-attempt-scheduled-iff-there-is-an-endpoint / no-connect-scheduled-without-an-endpoint guard the repair",
                "not under contract: Common.get_connection_hints / _get_direct_hints (inlineCallbacks + listener set-up: this side's own "
-               "addresses), Connector._publish_hints / Manager.send_hints (encode side of the dilation hints: encode_hint is "
-               "covered by the two round-trip lemmas, the list comprehension around it is not); the relay round trip is proved for "
-               "the one-sub-hint relay hints this side builds, not for arbitrary RelayV1Hint values (encode_hint writes every "
-               "sub-hint as direct-tcp-v1)"]
+               "addresses; transit flavour). Dilation encode side is under contract: encode_hint (relation `encodes`), "
+               "Connector._publish_hints / listener_ready / start, _start_listener + its callback (lemma listener_hints), "
+               "Manager.send_hints. Manager.send_hints is a recorded boundary call in the Connector's tasks and verified on its own "
+               "body separately (dict_to_bytes / JSON encoding trusted); Connector._get_listener_addresses is inlined with "
+               "ipaddrs.find_addresses as an arbitrary list of str; IListeningPort.getHost().port is an int (Twisted)",
+               "lemma listener_hints requires the Connector not to be stopped when ep.listen()'s Deferred fires (listener_ready has no "
+               "row in 'stopped': NoTransition inside the callback, logged by the errback)",
+               "round trip: proved for every Direct/Tor hint object that satisfies parse_hint's clause only-valid-hints (lemma "
+               "dilation_hint_roundtrip, hypothesis taken by name) and for relay hints with one Direct sub-hint (what this side "
+               "builds). NOT claimed: parse_hint(encode_hint(r)) for a RelayV1Hint with an arbitrary number of sub-hints - the "
+               "obligation was written and stayed undecided (z3/cvc5 do not derive the `every element passes the filter` premise of "
+               "the filter() model under the quantifiers), so it is not registered. Known deviation it would have to state: "
+               "encode_hint writes every relay sub-hint as direct-tcp-v1, so a TorTCPV1Hint sub-hint comes back as a "
+               "DirectTCPV1Hint (same hostname/port/priority); and RelayV1Hint.hints is a tuple on the way out, a list on the way "
+               "back (the model's seq type does not distinguish them: `==` on the Python objects is False)"]
